@@ -372,9 +372,11 @@ Definition split (s : list N) : sres :=
    tilde expansion (and a comment) at the start of a word.  None = syntax outside this fragment
    or an expansion would change the word.                                                      *)
 
-(* characters that are active in an unquoted word *)
+(* characters that are (or can be) active in an unquoted word.  The tilde is in the list because bash
+   expands it not only at the start of a word but also after `=` / `:` in arguments that look like
+   assignments (`f b=~` passes b=$HOME); the model conservatively gives up on any unquoted tilde. *)
 Definition bash_active : list N :=
-  [124; 38; 59; 60; 62; 40; 41; 123; 125; 36; 96; 92; 39; 34; 42; 63; 91; 93].
+  [124; 38; 59; 60; 62; 40; 41; 123; 125; 36; 96; 92; 39; 34; 42; 63; 91; 93; 126].
 
 Definition bare_ok (b : N) : bool :=
   (33 <=? b) && negb (b =? 127) && negb (existsb (N.eqb b) bash_active).
